@@ -47,6 +47,8 @@ ProductClauses(r) ==
 Clauses(r) ==
     CASE r.k = "build"     -> BuildClauses(r)
       [] r.k = "pattern"   -> PatternClauses(r)
+      \* after move_to_backend(bprm, keep_src = TRUE) the kept blocks still describe the same matrix
+      [] r.k = "kept"      -> << <<"kept-source=serial-after-move", DistOf(r.np, r.rp, r.cp, r.D, r.A)>> >>
       [] r.k = "spmv"      -> SpmvClauses(r)
       [] r.k = "inner"     -> << <<"inner=serial-on-all-ranks", Len(r.out) = r.np /\ AllEqualTo(Flat(r.out), InnerDef(r.x, r.y))>> >>
       [] r.k = "transpose" -> TransposeClauses(r)
